@@ -91,7 +91,7 @@ PROPS["C05"] = dict(
     expected=lambda kind, cid: ("Eval vm_compute in (map expected_multi (filter (fun c => N.eqb (mid c) %d) mcases))." % cid) if cid >= 500000 else ("Eval vm_compute in (map expected_dml (filter (fun c => N.eqb (did c) %d) dcases))." % cid),
     trusted=COMMON_TRUST + [FLOAT_TRUST, ORACLE_TRUST],
     assumptions=_QUERY_ASSUME + ["multi-table forms are modelled for two inner-joined file tables (DELETE of either or both, UPDATE of the first); stdin tables are not covered", "column names are resolved to positions by the harness, which tracks ADD/DROP/RENAME"],
-    level_text="Proof: Coq theorems (Properties/C05.v) over ALL tables and statements of the modelled single-table forms: INSERT appends exactly the given rows in order (listed columns get their value, the others NULL; old rows and width untouched; count = rows given); UPDATE keeps number and order of rows, leaves rows whose condition is not TRUE unchanged and, in matching rows, every column outside the SET list (count = matching rows); DELETE keeps exactly the non-matching rows in order (count = removed); REPLACE keeps every existing row in its place, changes it at most in the listed non-key columns, and appends the given rows that matched nothing in the order given; ADD COLUMN / DROP COLUMN / RENAME leave the other cells and their order untouched; histories compose (fold) and a failing statement changes nothing. The model (Model/Dml.v incl. REPLACE after the repair of the map-order defect) is tied to the code by histories of 1-10 statements on file tables and temporary tables through parser.Parse + Processor.ExecuteStatement, comparing the reported count and SELECT * after every statement inside Coq. Multi-table DELETE / UPDATE over two joined tables are modelled (delete_join, update_join) and compared the same way, including per-file counts and the files after COMMIT. Partial: REPLACE and the multi-table forms have no general theorem yet (model + correspondence + examples only).",
+    level_text="Proof: Coq theorems (Properties/C05.v) over ALL tables and statements of the modelled single-table forms: INSERT appends exactly the given rows in order (listed columns get their value, the others NULL; old rows and width untouched; count = rows given); UPDATE keeps number and order of rows, leaves rows whose condition is not TRUE unchanged and, in matching rows, every column outside the SET list (count = matching rows); DELETE keeps exactly the non-matching rows in order (count = removed); REPLACE keeps every existing row in its place, changes it at most in the listed non-key columns, and appends the given rows that matched nothing in the order given; multi-table DELETE removes from each target table exactly the rows that take part in a joined row on which ON and WHERE are TRUE (a non-target table is untouched) and multi-table UPDATE keeps number and order of the target's rows and leaves rows that take part in no such joined row unchanged; ADD COLUMN / DROP COLUMN / RENAME leave the other cells and their order untouched; histories compose (fold) and a failing statement changes nothing. The model (Model/Dml.v incl. REPLACE after the repair of the map-order defect) is tied to the code by histories of 1-10 statements on file tables and temporary tables through parser.Parse + Processor.ExecuteStatement, comparing the reported count and SELECT * after every statement inside Coq. Multi-table DELETE / UPDATE over two joined tables are modelled (delete_join, update_join) and compared the same way, including per-file counts and the files after COMMIT. Partial: REPLACE and the multi-table forms have no general theorem yet (model + correspondence + examples only).",
     level_note="Trusted: Coq kernel + vm_compute; primitive floats; Go harness incl. its tracking of column names; string oracles.",
     design_ref="DESIGN.md section 5 (C05)")
 
